@@ -296,16 +296,25 @@ def markRec (O : Ops) (d : Nat) (levels : List Level) (trunc : Bool) : Nat → N
 def markAll (O : Ops) (d : Nat) (levels : List Level) (trunc : Bool) (M : Marks) : Marks :=
   (List.range levels.length).foldl (fun M l => markRec O d levels trunc (l + 1) l M) M
 
-/-- `HSpace.refine(marked, truncate)`; returns the new space and the actually refined cells. -/
-def HSpace.refine (s : HSpace) (M : Marks) (trunc : Bool := false) : Except String (HSpace × Marks) :=
+/-- `HSpace.refine(marked, truncate)` on the level list: `_ensure_levels(max_lv + 2)`, the
+disparity-preserving marking, then `refineCore`.  Returns the new levels and the actually
+refined cells. -/
+def refineLevels (O : Ops) (disparity : Option Nat) (levels : List Level) (M : Marks) (trunc : Bool) :
+    Except String (List Level × Marks) :=
   match maxLevel M with
   | none => .error "err-ValueError"
   | some mx =>
-    let levels := ensureLevels (mx + 2) s.levels
-    let M' := match s.disparity with
+    let levels1 := ensureLevels (mx + 2) levels
+    let M' := match disparity with
       | none => M
-      | some d => if d = 0 then M else markAll s.ops d levels trunc M
-    .ok ({ s with levels := refineCore s.ops M' levels }, M')
+      | some d => if d = 0 then M else markAll O d levels1 trunc M
+    .ok (refineCore O M' levels1, M')
+
+/-- `HSpace.refine(marked, truncate)`; returns the new space and the actually refined cells. -/
+def HSpace.refine (s : HSpace) (M : Marks) (trunc : Bool := false) : Except String (HSpace × Marks) :=
+  match refineLevels s.ops s.disparity s.levels M trunc with
+  | .error e => .error e
+  | .ok (levels', M') => .ok ({ s with levels := levels' }, M')
 
 /-! ### queries -/
 
